@@ -157,7 +157,7 @@ def report(ctx: core.Ctx, results: list[dict], label: str = "") -> None:
                  max_read_ahead=r["max_ahead"],
                  max_threads=r["max_threads"],
                  wall_s=r["wall_s"])
-        for s in r["samples"][:1]:
+        for s in r["samples"][-1:]:
             ctx.sample({"config": cfg, **s}, limit=5)
         for v in r["violations"]:
             ctx.violation(sig_of(cfg, v["what"][0]),
